@@ -316,6 +316,18 @@ func ruleTABLEESC(c *Ctx) {
 
 // suffixCases collects the string case constants of switches whose tag is string(X[len(X)-2:]).
 func suffixCases(f *FuncInfo) map[string]*ast.CaseClause {
+	out := map[string]*ast.CaseClause{}
+	for _, g := range f.prog.CalleeClosure(f, 2) {
+		for k, v := range suffixCasesIn(g) {
+			if _, dup := out[k]; !dup {
+				out[k] = v
+			}
+		}
+	}
+	return out
+}
+
+func suffixCasesIn(f *FuncInfo) map[string]*ast.CaseClause {
 	info := f.Info()
 	out := map[string]*ast.CaseClause{}
 	InspectNoLit(f.Body(), func(n ast.Node) bool {
@@ -384,6 +396,14 @@ func ruleUNWRITE1(c *Ctx) {
 		for _, as := range findAll[*ast.AssignStmt](&ast.BlockStmt{List: cc.Body}) {
 			if len(as.Lhs) == 1 && len(as.Rhs) == 1 {
 				if v, ok := ConstI64(info, as.Rhs[0]); ok && isIntegerType(info.TypeOf(as.Lhs[0])) {
+					got = v
+				}
+			}
+		}
+		// or, when the detection is a helper of its own, the length it returns (0 = "not empty after all")
+		for _, r := range findAll[*ast.ReturnStmt](&ast.BlockStmt{List: cc.Body}) {
+			if len(r.Results) == 1 {
+				if v, ok := ConstI64(info, r.Results[0]); ok && v > 0 {
 					got = v
 				}
 			}
